@@ -135,6 +135,33 @@ example : DblDModel exModel := by
     subst hr; simp only [List.mem_singleton] at hx; subst hx
     exact isDbl_third
 
+/-! ### finding C17-4: the same 17 "digits" in `std::fixed` notation do not identify a double
+
+  FULL STATEMENT (what the property needs, for every formatting state of the caller's stream):
+      ∀ q, IsDbl q → scan (text of `os << q` under the writers' precision) = some (q, []).
+  It holds for the default notation (`scanDQ_printDQ`).  In fixed notation it is false; the writers must select the
+  default notation themselves (fixes/C17-4). -/
+
+/-- the double nearest 1/3, scaled by 2^-24 (≈ 1.99e-8): exact in binary, needs 24 digits after the point in fixed notation -/
+def smallThird : Rat := 6004799503160661 * pow2Q (-78)
+
+theorem isDbl_smallThird : IsDbl smallThird :=
+  Or.inr (Or.inl ⟨6004799503160661, -78, by norm_num [smallThird], by norm_num, by norm_num, by norm_num, by norm_num,
+    Or.inl (by norm_num)⟩)
+
+/-- witness: written with 17 digits in fixed notation the value reads back as ANOTHER double, and the scan succeeds
+    (the load does not fail: the change is silent) -/
+theorem fixed17_counterexample :
+    ((scanDQ (printFixedQ 17 smallThird)).map (·.2) = some [] ∧ scanDQ (printFixedQ 17 smallThird) ≠ some (smallThird, [])) ∧
+    scanDQ (printDQ 17 smallThird) = some (smallThird, []) :=
+  ⟨⟨by decide +kernel, by decide +kernel⟩, scanDQ_printDQ_17 _ isDbl_smallThird⟩
+
+/-- witness: values below 5e-18 are written as 0.00000000000000000 -/
+theorem fixed17_tiny_counterexample : scanDQ (printFixedQ 17 (1 * pow2Q (-60))) = some (0, []) := by decide +kernel
+
+/-- test: the fixed text of 1/3·2^-24 -/
+example : printFixedQ 17 smallThird = "0.00000001986821493".toList := by decide +kernel
+
 /-! ### consecutive loads on one stream (failbit is sticky) -/
 
 /-- the stream between two `operator>>`: its unread tokens, or failed (`none`); nobody calls `clear()` -/
